@@ -157,6 +157,8 @@ class World:
             e.uuid = "e" + o.uuid
             e.semantic_score = 0.9 - 0.07 * j - 0.011 * k - 0.0013 * SALT_KIND[kind] - salt
             if kind == "shifted":
+                # a shifted estimate outranks its unshifted counterpart of the same frame by 1e-9: distinct confidences, one exact ranking
+                e.semantic_score = 0.9 - 0.07 * j - 0.011 * k - salt + 1e-9
                 p = o.state.position
                 e.state.position = (p[0] + 0.6, p[1], p[2])
             out.append(e)
